@@ -30,6 +30,9 @@ WILD_DECLS = "".join('backend %s { .host = "127.0.0.%d"; .port = "80"; }\n' % (b
     'table rt REGEX { "a": "^a+", "b": "b$", "k": "^(k)=", }\n'
 FIELDS = ["k1", "k2"]
 STATES = ["lookup", "pass", "deliver"]
+ERROR_SCOPES = ("recv", "fetch")                  # of the four scopes used here (RECV HIT MISS PASS FETCH)
+RESTART_SCOPES = ("recv", "fetch", "deliver", "error")
+HIDDEN = [("@obj.status", "I"), ("@obj.response", "S")]   # ctx cells only `error` writes; read by the harness, never by a program
 SCOPES = {
     "recv": {"globals": [("req.max_stale_if_error", "R"), ("req.max_stale_while_revalidate", "R"),
                          ("req.hash_always_miss", "B"), ("req.hash_ignore_busy", "B")],
@@ -43,6 +46,52 @@ SCOPES = {
               "objs": ["req", "obj"]},
 }
 HDRS = ["ha", "hb", "hc"]
+
+
+def load_writable():
+    """(plain, odd): scope -> [(name, type)].
+    plain: the ctx variables the scope's Set method (interpreter/variable/<scope>.go, falling back to all.go) assigns
+    straight into one context field AND whose Get returns that same field - cells in the sense of the model.
+    odd: assigned into a field that the scope's Get does not return (the value read is computed or simulated):
+    writing them can be observed by nobody, so they are kept out of the programs and listed in the evidence.
+    Read from coq/Gen/StoreWritable.v (translator; distinct names are distinct cells by
+    C13_writable_cells_distinct).  None if the table is not there (the C13 check reports that)."""
+    import os
+    import re
+    path = os.path.join(os.path.dirname(os.path.dirname(os.path.abspath(__file__))), "coq", "Gen", "StoreWritable.v")
+    try:
+        txt = open(path).read()
+    except OSError:
+        return None
+    if "Definition writable" not in txt or "Definition readable" not in txt:
+        return None
+
+    def table(defn):
+        body = txt[txt.index("Definition " + defn):]
+        body = body[:body.index("\n].") + 3]
+        return {m.group(1): re.findall(r'\("([^"]+)", \("([^"]*)", "([A-Z])"\)\)', m.group(2))
+                for m in re.finditer(r'  \("([a-z]+)", \[(.*?)\]\)', body, re.S)}
+    wt, rt = table("writable"), table("readable")
+    plain, odd = {}, {}
+    for sc in wt:
+        if sc == "all":
+            continue
+        own = {n: (f, t) for n, f, t in wt[sc]}
+        for n, f, t in wt["all"]:
+            own.setdefault(n, (f, t))
+        rown = {n: f for n, f, _ in rt.get(sc, [])}
+        rall = {n: f for n, f, _ in rt.get("all", [])}
+        plain[sc], odd[sc] = [], []
+        for n, (f, t) in sorted(own.items()):
+            if not f:
+                continue
+            g = rown[n] if n in rown else rall.get(n, "")
+            (plain if g == f else odd)[sc].append((n, t))
+    return plain, odd
+
+
+_W = load_writable()
+WRITABLE, WRITE_ONLY = _W if _W is not None else (None, None)
 NGROUPS = 4
 BUILTINS = {0: ("std.strlen", ["S"], "I"), 1: ("std.toupper", ["S"], "S"), 2: ("std.tolower", ["S"], "S")}
 FLOATS = [("1.500", 1.5), ("0.250", 0.25), ("3.000", 3.0), ("10.125", 10.125), ("0.000", 0.0)]
@@ -142,7 +191,8 @@ class Prog:
             for k in sorted(frame_locals):
                 linemap[emit("log var.v%d;" % k, ind)] = ("snaplog", "var.v%d" % k, None)
             for n in self.pool():
-                linemap[emit("log %s;" % n, ind)] = ("snaplog", n, None)
+                if not n.startswith("@"):               # a ctx cell no variable of the language reads
+                    linemap[emit("log %s;" % n, ind)] = ("snaplog", n, None)
 
         def block(ss, ind, frame, visible):
             for s in ss:
@@ -173,6 +223,20 @@ class Prog:
                 return
             elif k == "rawstmt":
                 ln = emit(s[1], ind)
+            elif k == "add":
+                ln = emit("add %s = %s;" % (self.name_text(s[1]), self.etext(s[2])), ind)
+            elif k == "restart":
+                ln = emit("restart;", ind)
+                linemap[ln] = ("stmt", s, frame)
+                return
+            elif k == "error":
+                ln = emit("error%s%s;" % ("" if s[1] is None else " " + self.etext(s[1]), "" if s[2] is None else " " + self.etext(s[2])), ind)
+                linemap[ln] = ("stmt", s, frame)
+                return
+            elif k == "label":
+                ln = emit(s[1] + ":", ind)
+                linemap[ln] = ("stmt", ("nop", s[1]), frame)
+                return
             elif k == "nop":
                 ln = emit(s[1] + ";", ind)          # must stay the last statement of its case: no snapshot logs after it
                 linemap[ln] = ("stmt", s, frame)
@@ -281,8 +345,15 @@ class Prog:
             return "(call %d%s)" % (s[1], "".join(" " + self.esexp(a) for a in s[2]))
         if k == "ret":
             return "(ret %s)" % ("_" if s[1] is None else self.esexp(s[1]))
-        if k == "nop":
+        if k in ("nop", "label"):
             return "(nop)"
+        if k == "add":
+            return "(add %d %d %s)" % (s[1][1], s[1][2], self.esexp(s[2]))
+        if k == "restart":
+            return "(restart %d)" % int(self.scope in RESTART_SCOPES)
+        if k == "error":
+            return "(error %d %d %d %s %s)" % (int(self.scope in ERROR_SCOPES), self.gs, self.gr,
+                                               "_" if s[1] is None else self.esexp(s[1]), "_" if s[2] is None else self.esexp(s[2]))
         if k == "retstate":
             return "(retstate %d)" % s[1]
         if k == "switch":
@@ -374,7 +445,7 @@ class StoreGen:
         if "l" in kinds:
             out += [("l", k) for k, t in fr["locals"].items() if t == ty]
         if "g" in kinds:
-            out += [("g", i) for i, (_, t) in enumerate(self.p.globals) if t == ty]
+            out += [("g", i) for i, (n, t) in enumerate(self.p.globals) if t == ty and not n.startswith("@")]
         if ty == "S":
             if "h" in kinds:
                 out += [("h", o, h) for o in range(len(self.p.objs)) for h in range(len(HDRS))]
@@ -462,7 +533,7 @@ class StoreGen:
                     if r.random() < 0.45:
                         atoms.append(("s", r.choice(WORDS)))
                     else:
-                        t2 = r.choice(["S", "S", "S", "I", "B"])
+                        t2 = r.choice(["S", "S", "S", "I", "B", "F", "R"])
                         vv = self.var(fr, t2)
                         atoms.append(("v", vv[1]) if vv else ("s", r.choice(WORDS)))
                 return ("cat", atoms, r.random() < 0.5)
@@ -520,7 +591,7 @@ class StoreGen:
                 c = ("grp", ("not", c)) if r.random() < 0.5 else c
             self._c("dim:shape:stmt-bool" + op)
             return ("set", T, op, c)
-        op = r.choice({"I": ["=", "+=", "-="], "F": ["="], "R": ["=", "+="]}[ty])
+        op = r.choice({"I": ["=", "+=", "-="], "F": ["=", "+=", "-="], "R": ["=", "+="]}[ty])
         k = r.random()
         if k < 0.6:
             e = ("neg", self.shaped(fr, ty, 1, "neg"))
@@ -575,7 +646,7 @@ class StoreGen:
         if deep or k < 0.15:
             return bv or self.lit("B")
         if k < 0.45:
-            ty = r.choice(["I", "I", "S", "S", "B", "R"])
+            ty = r.choice(["I", "I", "S", "S", "B", "R", "F"])
             op = r.choice(["==", "!="]) if ty != "I" else r.choice(["==", "!=", "<", ">", "<=", ">="])
             left = self.operand(fr, ty, d, nonlit=True)
             if left is None:
@@ -624,12 +695,20 @@ class StoreGen:
     def rhs_for(self, fr, ty, op, header=False):
         r = self.r
         if header:
-            t2 = r.choice(["S", "S", "S", "S", "I", "B"])
+            t2 = r.choice(["S", "S", "S", "S", "I", "B", "F", "R"])
             if t2 == "S":
                 return self.expr(fr, "S", 1, top=True)
             return self.var(fr, t2) or self.expr(fr, "S", 1, top=True)
-        if ty == "S" and op == "=" and r.random() < 0.2:
-            t2 = r.choice(["I", "B", "R"])
+        if ty == "F" and op == "=" and r.random() < 0.25:
+            v = self.var(fr, "I")                 # FLOAT = INTEGER
+            if v is not None:
+                return v if r.random() < 0.7 else self.lit("I")
+        if ty == "I" and op == "=" and r.random() < 0.15:
+            v = self.var(fr, "F")                 # INTEGER = FLOAT (a FLOAT literal is refused)
+            if v is not None:
+                return v
+        if ty == "S" and op == "=" and r.random() < 0.25:
+            t2 = r.choice(["I", "B", "R", "F"])
             if t2 == "B":
                 return self.var(fr, "B") or self.lit("B")
             v = self.var(fr, t2)          # INTEGER / RTIME literals cannot be assigned to a STRING
@@ -645,7 +724,7 @@ class StoreGen:
             kk = r.choice(core)
             ty, T = fr["locals"][kk], ("l", kk)
         elif k < 0.75 and self.p.globals:
-            i = r.randrange(len(self.p.globals))
+            i = r.randrange(len(self.p.globals) - len(self.p.hidden))
             ty, T = self.p.globals[i][1], ("g", i)
         elif k < 0.88:
             T = ("h", r.randrange(len(self.p.objs)), r.randrange(len(HDRS)))
@@ -655,7 +734,7 @@ class StoreGen:
             T = ("f", r.randrange(len(self.p.objs)), r.randrange(2), r.choice([1, 2]))
             self._c("dim:field:set")
             return ("set", T, "=", self.rhs_for(fr, "S", "=", header=True))
-        ops = {"I": ["=", "=", "+=", "-="], "F": ["="], "S": ["="], "B": ["=", "=", "||=", "&&="], "R": ["=", "=", "+="]}[ty]
+        ops = {"I": ["=", "=", "+=", "-="], "F": ["=", "=", "+=", "-="], "S": ["="], "B": ["=", "=", "||=", "&&="], "R": ["=", "=", "+="]}[ty]
         op = r.choice(ops)
         self._c("stmt:set-" + T[0])
         return ("set", T, op, self.rhs_for(fr, ty, op))
@@ -680,7 +759,44 @@ class StoreGen:
     def stmts(self, fr, n, d=0):
         out = []
         for _ in range(n):
+            if self.r.random() < (0.16 if self.focus else 0.05):
+                out += self.alias_chain(fr)
             out.append(self.stmt(fr, d))
+        return out
+
+    def alias_chain(self, fr):
+        """copy-then-mutate: `set b = a;` then a statement that mutates a (compound assignment where the type
+        has one, so that an implementation working in place shows), then one that mutates b, between cells
+        of every kind (local, ctx variable, header).  The statements are ordinary `set`s: the model runs them
+        too, and the oracle sees b change on a line that names only a."""
+        r = self.r
+        ty = r.choice("IFSBR")
+        vs = self.vars_of(fr, ty, "lgh")
+        vs = [v for v in vs if not (v[0] == "g" and v[1] >= len(self.p.globals) - len(self.p.hidden))]
+        if len(vs) < 2:
+            return []
+        a, b = r.sample(vs, 2)
+        if r.random() < 0.6:        # prefer a local on one side: locals are the cells handed around by pointer
+            ls = [v for v in vs if v[0] == "l"]
+            if ls:
+                a = r.choice(ls)
+                if a == b:
+                    return []
+                if r.random() < 0.5:
+                    a, b = b, a
+        self._c("dim:alias:%s:%s<-%s" % (ty, b[0], a[0]))
+        mut = {"I": ["+=", "-="], "F": ["+=", "-="], "S": ["="], "B": ["||=", "&&=", "="], "R": ["+="]}[ty]
+
+        def mutate(x):
+            op = r.choice(mut) if x[0] != "h" else "="
+            return ("set", x, op, self.rhs_for(fr, ty if x[0] != "h" else "S", op, header=(x[0] == "h")) if x[0] == "h"
+                    else self.rhs_for(fr, ty, op))
+        out = [("set", b, "=", ("var", a)), mutate(a)]
+        if r.random() < 0.7:
+            out.append(mutate(b))
+        if r.random() < 0.5:
+            out.append(("set", a, "=", ("var", b)))      # and back: a cycle of copies
+            out.append(mutate(b))
         return out
 
     def stmt(self, fr, d):
@@ -700,7 +816,7 @@ class StoreGen:
             return self.set_stmt(fr)
         if k < 0.58:
             self._c("stmt:log")
-            return ("log", self.expr(fr, r.choice(["S", "S", "I", "B", "R"]), 1))
+            return ("log", self.expr(fr, r.choice(["S", "S", "I", "B", "R", "F"]), 1))
         if k < 0.63:
             if r.random() < 0.35:
                 self._c("dim:field:unset")
@@ -709,6 +825,26 @@ class StoreGen:
             return ("unset", ("h", r.randrange(len(self.p.objs)), r.randrange(len(HDRS))))
         if k < 0.70 and d < 2:
             return self.switch_stmt(fr, d)
+        if k < 0.735:
+            kk = r.random()
+            if kk < 0.45:
+                self._c("dim:add")
+                rhs = self.lit("S") if r.random() < 0.5 else ("cat", [("s", r.choice([w for w in WORDS if w])), ("v", (self.var(fr, "S") or ("var", ("r", 0)))[1])], True)
+                if rhs[0] == "lit" and not rhs[1][1]:
+                    rhs = ("lit", ("S", b"x", False, True), '"x"')
+                return ("add", ("h", r.randrange(len(self.p.objs)), r.randrange(len(HDRS))), rhs)
+            if kk < 0.65:
+                self.nlabel = getattr(self, "nlabel", 0) + 1
+                self._c("dim:goto")
+                return ("nop", "goto L%d" % self.nlabel) if r.random() < 0.6 else ("label", "L%d" % self.nlabel)
+            if (d > 0 or r.random() < 0.25) and (self.p.scope in ERROR_SCOPES or r.random() < 0.1):
+                self._c("dim:error")
+                code = r.choice([None, self.lit("I"), self.lit("I"), self.var(fr, "I")])
+                arg = None if code is None else r.choice([None, self.lit("S"), self.var(fr, "S")])
+                return ("error", code, arg)
+            if (d > 0 or r.random() < 0.25) and fr["ret"] is None:
+                self._c("dim:restart")
+                return ("restart",)
         if k < 0.715 and fr["ret"] is None and (d > 0 or r.random() < 0.3):
             self._c("dim:return-state")
             return ("retstate", r.randrange(len(STATES)))
@@ -816,16 +952,28 @@ class StoreGen:
         p.wild = self.wild
         p.scope = r.choice(sorted(SCOPES))
         p.globals = list(SCOPES[p.scope]["globals"])
+        if WRITABLE is not None and WRITABLE.get(p.scope):
+            # drawn from the source's own table: any writable ctx variable of a modelled type, a few per program
+            cand = [(n, t) for n, t in WRITABLE[p.scope] if t in CORE]
+            if cand and r.random() < 0.8:
+                p.globals = sorted(r.sample(cand, min(len(cand), r.randint(3, 6))))
+                self._c("dim:ctx-cells-from-source")
+        names = [n for n, _ in p.globals]
+        # in the ERROR scope obj.response IS ctx.ObjectResponse: one cell must not get two pool names
+        p.hidden = [h for h in HIDDEN if h[0][1:] not in names]
+        p.globals += p.hidden
+        p.gs = [n for n, _ in p.globals].index("@obj.status")
+        p.gr = [n.lstrip("@") for n, _ in p.globals].index("obj.response")
         p.objs = list(SCOPES[p.scope]["objs"])
         if self.wild:
-            p.extra_pool = ["req.url", "req.url.path", "req.url.qs", "req.method"]
+            p.extra_pool = ["req.url", "req.url.path", "req.url.qs", "req.method", "@fastly.error", "@workspace", "req.restarts"]
         self.nlocal = 0
         callable_ = []
         can_state = set()
 
         def states(ss):
             for st in ss:
-                if st[0] == "retstate" or (st[0] == "call" and st[1] in can_state):
+                if st[0] in ("retstate", "error", "restart") or (st[0] == "call" and st[1] in can_state):
                     return True
                 if st[0] == "if" and (states(st[2]) or any(states(b) for _, b in st[3]) or (st[4] is not None and states(st[4]))):
                     return True
@@ -879,7 +1027,12 @@ class StoreGen:
             for h in range(len(HDRS)):
                 if r.random() < 0.6:
                     body.append(("set", ("h", o, h), "=", self.lit("S")))
-        body += self.stmts(fr, r.randint(3, self.max_stmts))
+        if r.random() < 0.012:
+            # a LONG program: state carried over many statements (every one of them snapshotted)
+            self._c("dim:long-program")
+            body += self.stmts(fr, r.randint(40, 80))
+        else:
+            body += self.stmts(fr, r.randint(3, self.max_stmts))
         p.main = body
         p.stats = dict(self.stats)
         return p
@@ -985,7 +1138,7 @@ class WildGen(StoreGen):
         r = self.r
         p = self.p
         kinds = ["intop", "floatop", "cross", "cross", "field", "field", "add", "url", "time", "ip", "rtimeop",
-                 "typed", "typed", "typedcall", "typedcall"]
+                 "typed", "typed", "typedcall", "typedcall", "builtin", "builtin"]
         if self.focus:
             kinds += ["typed", "typedcall"] * 6
         c = r.choice(kinds)
@@ -996,6 +1149,25 @@ class WildGen(StoreGen):
         def st(text, target, has=()):
             self._c("wstmt:" + c)
             return ("rawstmt", text, {"target": target, "has": list(has)})
+        if c == "builtin":
+            # built-in functions WITH side effects, as statements: what they may write is read off the Go
+            # source (Gen/StoreEffects.v); the check allows exactly the named header of the named object
+            o, h = r.choice(p.objs), r.choice(HDRS)
+            n = "%s.http.%s" % (o, h)
+            c = "builtin:" + r.choice(["header.set", "header.set", "header.unset", "header.filter", "header.filter_except",
+                                       "header.get", "std.collect"])
+            f = c[8:]
+            if f == "header.set":
+                return st('header.set(%s, "%s", %s);' % (o, h, self.stext(fr)), n)
+            if f in ("header.unset", "header.filter"):
+                return st('%s(%s, "%s");' % (f, o, h), n)
+            if f == "header.filter_except":
+                return st('header.filter_except(%s, %s);' % (o, ", ".join('"%s"' % x for x in HDRS if x != h)), n)
+            if f == "std.collect":
+                return st("std.collect(%s);" % n, n)
+            if sv:
+                return st('set %s = header.get(%s, "%s");' % (nt(sv), o, h), nt(sv))
+            return None
         if c == "typed":
             ws = [(k, t) for k, t in fr["locals"].items() if t in "TPKXX"]
             xs = [k for k, t in fr["locals"].items() if t == "X"]
